@@ -4886,6 +4886,15 @@ GRIgetaid(ri_info_t *ri_ptr, int acc_perm)
         else {                         /* Check for old-style compressed raster or just open normally */
             if (ri_ptr->use_cr_drvr) { /* Use compressed raster driver */
                 unsigned pixel_size;   /* size of a pixel on disk */
+                char    *fname;        /* unused */
+                intn     file_acc, file_attach;
+
+                /* the compressed raster driver never looks at access modes: refuse write
+                   access to an image of a file that is open for reading only here */
+                if ((acc_perm & DFACC_WRITE) != 0 &&
+                    Hfidinquire(hdf_file_id, &fname, &file_acc, &file_attach) != FAIL &&
+                    (file_acc & DFACC_WRITE) == 0)
+                    HGOTO_ERROR(DFE_DENIED, FAIL);
 
                 pixel_size = (unsigned)(ri_ptr->img_dim.ncomps * DFKNTsize(ri_ptr->img_dim.nt));
 
